@@ -56,6 +56,8 @@ def check(ix, rep):
     rep.floor('horizon + pastifier dispatch cells', n1 + n2, 76)
     nh, deltas = pastify.check_horizon(ix, rep, hcls, pcls)
     nd, consumed = pastify.check_delay(ix, rep, pcls)
+    no = pastify.check_origin(ix, rep, pcls)
+    rep.floor('past operators checked for samples before the origin', no, 10)
     rep.floor('horizon handlers interpreted', nh, 33)
     rep.floor('pastifier handlers interpreted', nd, 33)
     # agreement: what the horizon adds for X is what the pastifier consumes for X
